@@ -629,10 +629,17 @@ func (a *Assembler) Assemble(netFlow gopacket.Flow, t *layers.TCP) {
 type assemblerAction struct {
 	nextSeq Sequence
 	queue   bool
-	// limitPages is the number of pages the half-connection held when a
-	// buffer limit made the assembler release its first buffered run (0: no
-	// limit was hit)
-	limitPages int
+	// limitHit: a buffer limit made the assembler release a buffered run
+	limitHit bool
+}
+
+// queuedPages counts the pages of out-of-order data waiting in the queue.
+func (half *halfconnection) queuedPages() int {
+	n := 0
+	for p := half.first; p != nil; p = p.next {
+		n++
+	}
+	return n
 }
 
 // AssembleWithContext reassembles the given TCP packet into its appropriate
@@ -762,13 +769,12 @@ func (a *Assembler) AssembleWithContext(netFlow gopacket.Flow, t *layers.TCP, ac
 		}
 	}
 	// Releasing one buffered run does not make room for a packet of several
-	// pages: go on, as long as releasing makes room (a stream that keeps what
-	// it is given holds on to the pages), until the connection is below the
-	// limits again.
-	for before := action.limitPages; before > 0 && half.pages < before && !half.closed && half.first != nil &&
-		((a.MaxBufferedPagesPerConnection > 0 && half.pages >= a.MaxBufferedPagesPerConnection) ||
-			(a.MaxBufferedPagesTotal > 0 && a.pc.used >= a.MaxBufferedPagesTotal)); {
-		before = half.pages
+	// pages: go on until the out-of-order data of the connection is below the
+	// limit again. (Pages the stream keeps after they were released to it are
+	// not out-of-order data any more: they do not count here.)
+	for action.limitHit && !half.closed && half.first != nil &&
+		((a.MaxBufferedPagesPerConnection > 0 && half.queuedPages() >= a.MaxBufferedPagesPerConnection) ||
+			(a.MaxBufferedPagesTotal > 0 && a.pc.used >= a.MaxBufferedPagesTotal)) {
 		a.skipFlush(conn, half)
 	}
 	if *debugLog {
@@ -1009,7 +1015,7 @@ func (a *Assembler) handleBytes(bytes []byte, seq Sequence, half *halfconnection
 				log.Printf("hit max buffer size: %+v, %v, %v", a.AssemblerOptions, half.pages, a.pc.used)
 			}
 			action.queue = false
-			action.limitPages = half.pages
+			action.limitHit = true
 			a.addNextFromConn(half)
 		}
 		a.dump("handleBytes after queue", half)
